@@ -44,19 +44,6 @@ func judgeImportBlock(c *Ctx, u *probe.Unit) {
 	}
 }
 
-// importOwner: a compile error that is about the import block or about which package a qualified name denotes is C14's
-// business ("the import block lists exactly the packages the generated code uses", "resolves to exactly the package denoted");
-// any other compile error is C01's.
-func importOwner(compileErr string) string {
-	for _, m := range []string{"imported and not used", "imported as", "is not in std", "cannot find module providing package", "cannot find package", "no required module provides package",
-		"malformed import path", "malformed module path", "redeclared in this block", "undefined: i", "invalid import path", "import cycle", "use of internal package", "is not in GOROOT"} {
-		if strings.Contains(compileErr, m) {
-			return "C14,C01"
-		}
-	}
-	return "C01"
-}
-
 func checkC14(c *Ctx) error {
 	c.Rule = "seeded alias tables over the fixture paths with alias names that are string prefixes of other aliases (a/ab/abc, f/fm/fmt, fi/fixt), of referenced paths, and of or equal to the packages the template itself imports (fmt, os, errors, context, reflect, strconv, github.com), x references in constructor, value, type, !value, decorator and function positions x the written forms (bare alias, alias/sub-path, unquoted and quoted full path, \".\"); fixture packages export identical self-identifying symbols, so the package every object, decorator, function and getter type really came from is observed at run time and compared with the reference alias resolver (whole-segment rule); the import block is parsed for duplicates and shared local names. distinct = distinct configuration; non-trivial = >=2 aliases and >=3 package references"
 	c.Assumptions = []string{"reference alias resolver engine/ref.Imports (B.4)", "compilation proves the import block lists exactly the used packages"}
@@ -97,7 +84,7 @@ func checkC14(c *Ctx) error {
 			c.Add("stub_import_blocks_checked", 1)
 		}
 		if u.Accepted && !u.Compiled {
-			c.Side(importOwner(u.CompileErr), "stub-does-not-compile:"+errClass(u.CompileErr), fmt.Sprintf("unit %s (stub): %s", u.ID, firstLines(u.CompileErr, 8)), unitFiles(u))
+			c.Violate("stub-does-not-compile:"+errClass(u.CompileErr), fmt.Sprintf("unit %s (stub): %s", u.ID, firstLines(u.CompileErr, 8)), unitFiles(u))
 		}
 	}
 	err = behaviourUnits(c, lab, units, func(conf *cfg.Config) bool {
@@ -126,7 +113,7 @@ func checkC14(c *Ctx) error {
 		}
 		if u.Accepted && !u.Compiled {
 			// for C14 a non-compiling import block is a violation in its own right
-			c.Side(importOwner(u.CompileErr), "does-not-compile:"+errClass(u.CompileErr), fmt.Sprintf("unit %s: %s", u.ID, firstLines(u.CompileErr, 8)), unitFiles(u))
+			c.Violate("does-not-compile:"+errClass(u.CompileErr), fmt.Sprintf("unit %s: %s", u.ID, firstLines(u.CompileErr, 8)), unitFiles(u))
 		}
 	}
 	return nil
